@@ -143,6 +143,8 @@ inductive Err where
   | outOfFuel
 deriving DecidableEq, Repr
 
+deriving instance DecidableEq for Except
+
 variable {R : Type}
 
 /-! ## Transformations (fontTools.misc.transform) -/
@@ -286,6 +288,51 @@ def run (skip : Bool) : List (Ev R) → PenSt R → Except Err (PenSt R)
 def build (skip : Bool) (evs : List (Ev R)) (g : Glyph R) : Except Err (Glyph R) := do
   let s ← run skip evs ⟨g, none⟩
   .ok s.g
+
+/-! ### the glyph a REJECTED call leaves behind
+
+The exception propagates out of the pen; the glyph keeps what the calls before it did (contours
+already appended, identifiers already registered — also those of a contour that was begun and never
+appended).  Used by the driver only; `runKeep_spec` (Lemmas) ties it to `run`. -/
+
+def runCoreKeep (skip : Bool) : List (Ev R) → PenSt R → PenSt R × Option Err
+  | [], s => (s, none)
+  | e :: es, s =>
+    match stepCore skip s e with
+    | .ok s' => runCoreKeep skip es s'
+    | .error err => (s, some err)
+
+/-- a failing `_fullyLoadShallowLoadedContours` has already reset `_shallowLoadedContours` and built a prefix -/
+def deepenKeep (g : Glyph R) : Glyph R × Option Err :=
+  match g.shallow with
+  | none => (g, none)
+  | some raws =>
+    let r := runCoreKeep false (drawRaw raws) ⟨{ g with shallow := none }, none⟩
+    (r.1.g, r.2)
+
+def stepKeep (skip : Bool) (s : PenSt R) : Ev R → PenSt R × Option Err
+  | .endPath =>
+    match s.cur with
+    | none => (s, some .noContour)
+    | some c =>
+      match deepenKeep s.g with
+      | (g, none) => ({ g := { g with contours := g.contours ++ [c] }, cur := none }, none)
+      | (g, some err) => ({ s with g := g }, some err)
+  | e =>
+    match stepCore skip s e with
+    | .ok s' => (s', none)
+    | .error err => (s, some err)
+
+def runKeep (skip : Bool) : List (Ev R) → PenSt R → PenSt R × Option Err
+  | [], s => (s, none)
+  | e :: es, s =>
+    match stepKeep skip s e with
+    | (s', none) => runKeep skip es s'
+    | (s', some err) => (s', some err)
+
+def buildKeep (skip : Bool) (evs : List (Ev R)) (g : Glyph R) : Glyph R × Option Err :=
+  let r := runKeep skip evs ⟨g, none⟩
+  (r.1.g, r.2)
 
 /-! ## `GlyphObjectLoadingPointPen` (what `Layer.loadGlyph` hands to glifLib) -/
 
